@@ -107,8 +107,21 @@ where
     where
         T: Ord,
     {
-        let a = parse_filesize(&self.values[i].to_string()).unwrap_or(0);
-        let b = parse_filesize(&other.values[i].to_string()).unwrap_or(0);
+        let a = self.values[i].to_string();
+        let b = other.values[i].to_string();
+
+        // whole numbers (also negative ones, as an arithmetic key may yield) compare exactly
+        if let (Ok(a), Ok(b)) = (a.parse::<i64>(), b.parse::<i64>()) {
+            return a.cmp(&b);
+        }
+
+        // fractions by value
+        if let (Ok(a), Ok(b)) = (a.parse::<f64>(), b.parse::<f64>()) {
+            return a.partial_cmp(&b).unwrap_or(Ordering::Equal);
+        }
+
+        let a = parse_filesize(&a).unwrap_or(0);
+        let b = parse_filesize(&b).unwrap_or(0);
 
         a.cmp(&b)
     }
